@@ -425,6 +425,12 @@ def gen_program(rng, case, focus=None, allow_infeasible=True):
         kinds += ['fill', 'dilute', 'solution', 'solution_from', 't_cp']
     while len(real_steps(steps)) < n_target and tries < 80:
         tries += 1
+        if open_stage is None and rng.random() < 0.05:
+            # a stage that contains no step at all: a legal timeframe in which nothing was used and nothing flowed
+            steps.append({'op': 'start_stage', 'name': f'empty{stages}'})
+            steps.append({'op': 'end_stage', 'name': f'empty{stages}'})
+            stages += 1
+            M.bucket('C09/empty_stage')
         if open_stage is None and rng.random() < 0.25:
             open_stage = f'st{stages}'
             stages += 1
